@@ -110,6 +110,12 @@ class Mutator(ast.NodeTransformer):
                 node.func.id = new
         return node
 
+    def visit_arguments(self, node):  # default values are API, not behaviour the contracts talk about
+        return node
+
+    def visit_Raise(self, node):      # error messages
+        return node
+
     def visit_Expr(self, node):       # keep docstrings untouched
         if isinstance(node.value, ast.Constant) and isinstance(node.value.value, str):
             return node
